@@ -200,7 +200,22 @@ def rule_ctor(ctx):
         f = ci.methods.get(name)
         ctx.require(f is not None, 'C19.ctor', f'Env.{name} vanished')
         rets = [s for s in walk_local(f.node) if isinstance(s, ast.Return)]
-        ctx.require(len(rets) == 1 and isinstance(rets[0].value, ast.Call), 'C19.ctor', f'Env.{name}: single constructor return expected')
+        if not (len(rets) == 1 and isinstance(rets[0].value, ast.Call)):
+            # the constructor was restructured (e.g. built from a sibling and patched up): the table cannot be matched, but one
+            # necessary condition still can: with a `bias` parameter every level written into `.levels` carries the bias
+            bad = []
+            if 'bias' in f.params:
+                for st in walk_local(f.node):
+                    if isinstance(st, ast.Assign) and any(isinstance(t, ast.Attribute) and t.attr == 'levels' for t in st.targets) \
+                            and isinstance(st.value, (ast.List, ast.Tuple)):
+                        for el in st.value.elts:
+                            if not isinstance(el, ast.Starred) and 'bias' not in U.names_in(el):
+                                bad.append(norm(el))
+            if bad:
+                ctx.ob('C19.ctor', f'{f.fq}:breakpoints', False,
+                       f'Env.{name} writes the level(s) {bad} without the bias: the reference breakpoints are {lv}', f.node, mod)
+                continue
+            ctx.require(False, 'C19.ctor', f'Env.{name}: single constructor return expected')
         c = rets[0].value
         args = [norm(a) for a in c.args]
         key = f'{f.fq}:breakpoints'
@@ -231,6 +246,8 @@ def rule_ctor(ctx):
     for name, pre in (('adsr', '[0, peak_level, peak_level * sustain_level, 0]'), ('dadsr', '[0, 0, peak_level, peak_level * sustain_level, 0]')):
         f = ci.methods[name]
         c = [s for s in walk_local(f.node) if isinstance(s, ast.Return)][0].value
+        if not (isinstance(c, ast.Call) and c.args):
+            continue        # restructured constructor: judged by the breakpoints clause above
         a0 = c.args[0]
         got = flat_commutative(a0)
         want1 = f'utl.list_binop(operator.add,{flat_commutative(ast.parse(pre, mode="eval").body)},bias)'
@@ -282,6 +299,9 @@ def run(ctx):
 
 
 MUTANTS = [
+    dict(rule='C19.ctor', name='dadsr built from adsr with an unbiased first level (seed C19-c)', file='sc3/synth/envelope.py',
+         old="        return cls(\n            utl.list_binop(\n                operator.add,\n                [0, 0, peak_level, peak_level * sustain_level, 0], bias),\n            [delay_time, attack_time, decay_time, release_time], curve, 3)",
+         new="        env = cls.adsr(\n            attack_time, decay_time, sustain_level,\n            release_time, peak_level, curve, bias)\n        env.levels = [0, *env.levels]\n        env.times = [delay_time, *env.times]\n        env.release_node += 1\n        return env"),
     dict(rule='C19.shapes', name="'wel' mapped to 3", file='sc3/synth/envelope.py', old="        'wel': 4,", new="        'wel': 3,"),
     dict(rule='C19.shapes', name="(fix reverted) 'sqr' missing", file='sc3/synth/envelope.py', old="        'sqr': 6,\n", new=""),
     dict(rule='C19.shapes', name='hold branch deleted from evaluator', file='sc3/synth/envelope.py',
